@@ -134,6 +134,14 @@ pub fn execute(rep: &Reporter, pid: &str, cases: Vec<Case>) {
                                 rep.eval(n);
                             }
                         }
+                        Some(got) if exp.text.starts_with('^') => {
+                            let ok = exp.text.split('|').any(|alt| got.starts_with(alt.trim_start_matches('^')));
+                            if !ok {
+                                rep.violation(format!("{pid}/L3: {} -> {}", exp.what, vmodel::report::truncate(got, 400)), json!({"probe_dir": c.probe.dir().display().to_string()}));
+                            } else if got.starts_with("SKIP") {
+                                rep.count("skipped_icu_cannot_format", 1);
+                            }
+                        }
                         Some(got) if *got != exp.text => rep.violation(
                             format!("{pid}/L3: {} -> {:?}, expected {:?}", exp.what, got, exp.text),
                             json!({"probe_dir": c.probe.dir().display().to_string(), "record": id}),
@@ -799,6 +807,207 @@ fn c17(tier: Tier) -> i32 {
     rep.finish(cov, &["the hydrate-side consumer (init_translations, serde_wasm_bindgen) needs a browser: not executed"])
 }
 
+// ---------------------------------------------------------------------------------------------
+// C18: formatter output == direct ICU4X, for the locale being rendered; cache histories
+// ---------------------------------------------------------------------------------------------
+
+const C18_ITEMS: &str = r##"
+use leptos_i18n::reexports::fixed_decimal::FixedDecimal;
+use leptos_i18n::reexports::icu::calendar::{Date, DateTime, Time, AnyCalendar};
+use leptos_i18n::reexports::icu::datetime::{options::length, DateFormatter, DateTimeFormatter, TimeFormatter};
+use leptos_i18n::reexports::icu::decimal::{options::{FixedDecimalFormatterOptions, GroupingStrategy}, FixedDecimalFormatter};
+use leptos_i18n::reexports::icu::list::{ListFormatter, ListLength};
+use leptos_i18n::reexports::icu::currency::{formatter::{CurrencyCode, CurrencyFormatter}, options::{CurrencyFormatterOptions, Width as CurrencyWidth}};
+use leptos_i18n::reexports::icu::locid::Locale as IcuLocale;
+use leptos_i18n::formatting::*;
+
+fn dl(l: &str) -> leptos_i18n::reexports::icu::provider::DataLocale { (&l.parse::<IcuLocale>().unwrap()).into() }
+fn fd(v: f64) -> FixedDecimal { FixedDecimal::try_from_f64(v, leptos_i18n::reexports::fixed_decimal::FloatPrecision::Floating).unwrap() }
+type D = Result<String, String>;
+fn es<E: std::fmt::Debug>(e: E) -> String { format!("{e:?}") }
+fn d_num(l: &str, gs: GroupingStrategy, v: f64) -> D {
+    Ok(FixedDecimalFormatter::try_new(&dl(l), FixedDecimalFormatterOptions::from(gs)).map_err(es)?.format_to_string(&fd(v)))
+}
+fn d_cur(l: &str, w: CurrencyWidth, code: &str, v: f64) -> D {
+    let f = CurrencyFormatter::try_new(&dl(l), CurrencyFormatterOptions::from(w)).map_err(es)?;
+    Ok(writeable_to_string(&f.format_fixed_decimal(&fd(v), CurrencyCode(tinystr_of(code)))))
+}
+fn tinystr_of(code: &str) -> tinystr::TinyAsciiStr<3> { code.parse().unwrap() }
+fn writeable_to_string<W: writeable::Writeable>(w: &W) -> String { let mut s = String::new(); w.write_to(&mut s).unwrap(); s }
+fn the_date() -> Date<AnyCalendar> { Date::try_new_iso_date(1970, 1, 2).unwrap().to_any() }
+fn the_time() -> Time { Time::try_new(14, 34, 28, 0).unwrap() }
+fn the_datetime() -> DateTime<AnyCalendar> { DateTime::new(the_date(), the_time()) }
+fn d_date(l: &str, len: length::Date, _v: ()) -> D { DateFormatter::try_new_with_length(&dl(l), len).map_err(es)?.format_to_string(&the_date()).map_err(es) }
+fn d_time(l: &str, len: length::Time, _v: ()) -> D { Ok(TimeFormatter::try_new_with_length(&dl(l), len).map_err(es)?.format_to_string(&the_time())) }
+fn d_datetime(l: &str, d: length::Date, t: length::Time, _v: ()) -> D {
+    let opts = length::Bag::from_date_time_style(d, t);
+    DateTimeFormatter::try_new(&dl(l), opts.into()).map_err(es)?.format_to_string(&the_datetime()).map_err(es)
+}
+fn d_list(l: &str, ty: &str, len: ListLength, v: &[&'static str]) -> D {
+    let f = match ty {
+        "And" => ListFormatter::try_new_and_with_length(&dl(l), len),
+        "Or" => ListFormatter::try_new_or_with_length(&dl(l), len),
+        _ => ListFormatter::try_new_unit_with_length(&dl(l), len),
+    }
+    .map_err(es)?;
+    Ok(f.format_to_string(v.iter()))
+}
+/// `observed` is only evaluated when ICU4X itself can format with these options
+fn cmp(id: usize, observed: impl FnOnce() -> String, prefix: &str, expected: D) {
+    match expected {
+        Err(e) => p(id, format!("SKIP-ICU-UNSUPPORTED {e}")),
+        Ok(expected) => {
+            let expected = format!("{prefix}{expected}");
+            let observed = observed();
+            if observed == expected { p(id, format!("OK {expected}")) } else { p(id, format!("MISMATCH observed {observed:?} direct-ICU {expected:?}")) }
+        }
+    }
+}
+/// documented options ICU4X cannot honour: what does the library do? (run last: a panic poisons the cache lock)
+fn probe_unsupported(id: usize, what: &str, call: impl FnOnce() -> String + std::panic::UnwindSafe, expected: D) {
+    if expected.is_ok() { p(id, "OK supported".to_string()); return; }
+    std::panic::set_hook(Box::new(|_| {}));
+    match std::panic::catch_unwind(call) {
+        Ok(s) => p(id, format!("OK library answered {s:?} where ICU4X refuses")),
+        Err(e) => {
+            let msg = e.downcast_ref::<String>().cloned().or_else(|| e.downcast_ref::<&str>().map(|s| s.to_string())).unwrap_or_default();
+            p(id, format!("PANIC rendering documented option `{what}` panics: {msg}"))
+        }
+    }
+}
+"##;
+
+fn c18(tier: Tier) -> i32 {
+    use vmodel::fmtspec::*;
+    let rep = Reporter::new("C18", "L3", tier);
+    let cases = all_cases();
+    // locales: fr-CA holds explicit nulls: it renders fr's declarations with fr-CA's formatting
+    let locales = ["en", "fr", "de", "ja", "ar", "fr-CA"];
+    let mut cfg = Config::simple("en", &locales);
+    cfg.inherits = vec![("fr-CA".into(), "fr".into())];
+    let mut p = Project::new(cfg);
+    for l in locales {
+        let mut e = vec![];
+        for (i, c) in cases.iter().enumerate() {
+            if l == "fr-CA" {
+                e.push((format!("f{i}"), Val::Null));
+            } else {
+                e.push((format!("f{i}"), s(vec![text(&format!("[{l}]")), var_fmt("v", &format!(" {}", c.text))])));
+            }
+        }
+        p.set_file(None, l, e);
+    }
+    // split over several probe crates to keep compile units moderate
+    let per = tier.pick(40, 30);
+    let mut built = vec![];
+    let num_values: Vec<f64> = vec![0.0, 1234567.891, -42.0];
+    let lists: Vec<&str> = vec!["[\"A\", \"B\", \"C\"]", "[\"A\"]", "[\"A\", \"B\"]", "[\"\"; 0]"];
+    for (ci, chunk) in cases.chunks(per).enumerate() {
+        let mut c = Case::new(&format!("c18_{}_{ci}", tier.name()), p.clone());
+        c.probe.items.push_str(C18_ITEMS);
+        for (j, fc) in chunk.iter().enumerate() {
+            let i = ci * per + j;
+            for l in locales {
+                let lv = locale_variant(l);
+                let src = if l == "fr-CA" { "fr" } else { l };
+                let values: Vec<(String, String, String)> = match fc.family {
+                    // (value for string flavours, value for the view flavour, V of the direct call)
+                    "number" | "currency" => num_values.iter().map(|v| (format!("{v:?}f64"), format!("move || {v:?}f64"), format!("{v:?}"))).collect(),
+                    "date" => vec![("the_date()".into(), "move || the_date()".into(), "()".into())],
+                    "time" => vec![("the_time()".into(), "move || the_time()".into(), "()".into())],
+                    "datetime" => vec![("the_datetime()".into(), "move || the_datetime()".into(), "()".into())],
+                    _ => lists.iter().map(|v| (v.to_string(), format!("move || {v}"), format!("&{v}"))).collect(),
+                };
+                for (vi, (sv, vv, dv)) in values.iter().enumerate() {
+                    if tier == Tier::Quick && vi > 0 && !(l == "en" || l == "ar") {
+                        continue;
+                    }
+                    let direct = fc.direct.replace("$L", &format!("{l:?}")).replace("$V", dv);
+                    let prefix = format!("\"[{src}]\"");
+                    let id = c.next_id;
+                    c.next_id += 1;
+                    c.probe.stmts.push(format!("cmp({id}, || td_string!({lv}, f{i}, v = {sv}).to_string(), {prefix}, {direct});"));
+                    c.expected.insert(id, Expect { probe: c.probe.name.clone(), what: format!("td_string {} @{l} value {dv}", fc.text), text: "^OK|^SKIP-ICU".into(), suffix: false });
+                    if vi == 0 && (tier == Tier::Thorough || i % 3 == 0) {
+                        let id = c.next_id;
+                        c.next_id += 1;
+                        c.probe.stmts.push(format!("cmp({id}, || html(td!({lv}, f{i}, v = {vv})), {prefix}, {direct});"));
+                        c.expected.insert(id, Expect { probe: c.probe.name.clone(), what: format!("td {} @{l}", fc.text), text: "^OK|^SKIP-ICU".into(), suffix: false });
+                    }
+                    if vi == 0 && fc.macro_ok && (tier == Tier::Thorough || i % 2 == 0) && !fc.text.contains("nonsense") {
+                        let id = c.next_id;
+                        c.next_id += 1;
+                        let fsv = if matches!(fc.family, "date" | "time" | "datetime") { format!("&{sv}") } else { sv.clone() };
+                        c.probe.stmts.push(format!("cmp({id}, || td_format_string!({lv}, {fsv}, formatter: {}).to_string(), \"\", {direct});", fc.text));
+                        c.expected.insert(id, Expect { probe: c.probe.name.clone(), what: format!("td_format_string {} @{l}", fc.text), text: "^OK|^SKIP-ICU".into(), suffix: false });
+                    }
+                }
+            }
+        }
+        built.push(c);
+    }
+    // cache histories: the same formatter lookups in every order; results must not depend on what ran before
+    {
+        let mut c = Case::new(&format!("c18_{}_hist", tier.name()), p.clone());
+        c.probe.items.push_str(C18_ITEMS);
+        // 6 lookups colliding pairwise on locale or on options
+        let look = [
+            ("en", "Auto"), ("en", "Never"), ("fr", "Auto"), ("fr", "Never"), ("fr-CA", "Auto"), ("ar", "Never"),
+        ];
+        let key_of = |gs: &str| cases.iter().position(|c| c.family == "number" && c.debug == format!("Number({gs})")).unwrap();
+        let depth = tier.pick(4, 5);
+        let mut body = String::from("fn hist(seq: &[usize]) -> String { let mut out = vec![]; for s in seq { out.push(match s {\n");
+        for (li, (l, gs)) in look.iter().enumerate() {
+            body.push_str(&format!("{li} => td_string!({}, f{}, v = 1234567.891f64).to_string(),\n", locale_variant(l), key_of(gs)));
+        }
+        body.push_str("_ => String::new() }); } out.join(\"|\") }\n");
+        c.probe.items.push_str(&body);
+        // expected per lookup, independent of position
+        let mut exp_fn = String::from("fn hist_expected(seq: &[usize]) -> String { let mut out = vec![]; for s in seq { out.push(match s {\n");
+        for (li, (l, gs)) in look.iter().enumerate() {
+            let src = if *l == "fr-CA" { "fr" } else { l };
+            exp_fn.push_str(&format!("{li} => format!(\"[{src}]{{}}\", d_num({l:?}, GroupingStrategy::{gs}, 1234567.891).unwrap()),\n"));
+        }
+        exp_fn.push_str("_ => String::new() }); } out.join(\"|\") }\n");
+        c.probe.items.push_str(&exp_fn);
+        c.probe.items.push_str(&format!(
+            "fn all_histories() -> (u64, Vec<String>) {{ let n = {}usize; let depth = {depth}usize; let mut bad = vec![]; let mut count = 0u64; let mut seq = vec![0usize; depth]; loop {{ for len in 1..=depth {{ if seq[len..].iter().all(|x| *x == 0) {{ count += 1; let got = hist(&seq[..len]); let want = hist_expected(&seq[..len]); if got != want {{ bad.push(format!(\"history {{:?}}: {{got}} vs {{want}}\", &seq[..len])); }} }} }} let mut i = depth; loop {{ if i == 0 {{ return (count, bad); }} i -= 1; seq[i] += 1; if seq[i] < n {{ break; }} seq[i] = 0; }} }} }}\n",
+            look.len()
+        ));
+        c.add_summary(
+            "{ let (n, bad) = all_histories(); p($ID, format!(\"checked={} problems={}\", n, bad.len())); for (i, b) in bad.iter().take(20).enumerate() { p(1_000_000 + i, b.clone()); } }".to_string(),
+            format!("cache histories of length <= {depth} over 6 colliding lookups"),
+            "problems=0",
+        );
+        built.push(c);
+    }
+    // documented options that ICU4X's formatter refuses: the library must not take the process down
+    {
+        let mut c = Case::new(&format!("c18_{}_unsupported", tier.name()), p.clone());
+        c.probe.items.push_str(C18_ITEMS);
+        for (i, fc) in cases.iter().enumerate() {
+            if !matches!(fc.family, "time" | "datetime") {
+                continue;
+            }
+            let direct = fc.direct.replace("$L", "\"en\"").replace("$V", "()");
+            let sv = if fc.family == "time" { "the_time()" } else { "the_datetime()" };
+            let id = c.next_id;
+            c.next_id += 1;
+            c.probe.stmts.push(format!("probe_unsupported({id}, {:?}, || td_string!(Locale::en, f{i}, v = {sv}).to_string(), {direct});", fc.text));
+            c.expected.insert(id, Expect { probe: c.probe.name.clone(), what: format!("documented option `{}` at run time", fc.text), text: "^OK".into(), suffix: false });
+        }
+        built.push(c);
+    }
+    let n_cases = cases.len();
+    execute(&rep, "C18", built);
+    rep.nontriv(n_cases as u64 * locales.len() as u64);
+    rep.sample(json!({"key": "[fr]{{ v, currency(width: narrow; currency_code: EUR) }}", "probe": "cmp(id, td_string!(Locale::fr_CA, f27, v = 1234567.891f64).to_string(), format!(\"[fr]{}\", d_cur(\"fr-CA\", CurrencyWidth::Narrow, \"EUR\", 1234567.891)))"}));
+    let mut cov = serde_json::Map::new();
+    cov.insert("rule".into(), json!(format!("{n_cases} formatter declarations (every name x every documented argument value + omitted + invalid, unknown argument, swapped order) as keys of a project with locales en, fr, de, ja, ar and fr-CA (all keys null, inherits fr: fr's declaration rendered for fr-CA); for each key x locale x values (numbers 0, 1234567.891, -42; a fixed date, time, datetime; lists of 3, 1, 2, 0 items) td_string! (all), td! -> html and td_format_string! (subsets in the quick tier) are compared inside the probe with a direct ICU4X call for the locale being rendered; cache histories: every sequence of length <= {} over 6 number-formatter lookups that collide pairwise on locale or on options, each element compared with its direct-ICU value whatever ran before", tier.pick(4, 5))));
+    cov.insert("exhaustive".into(), json!(tier == Tier::Thorough));
+    rep.finish(cov, &["ICU4X formatting with compiled data is the reference (trusted base)", "thread interleavings of the cache are the loom engine's part of this check"])
+}
+
 fn main() {
     let args: Vec<String> = std::env::args().collect();
     let tier = Tier::from_env_or_args(&args);
@@ -807,6 +1016,7 @@ fn main() {
         "c02" => c02(tier),
         "c13" => c13(tier),
         "c17" => c17(tier),
+        "c18" => c18(tier),
         _ => {
             eprintln!("usage: vgen <c01|...> [--tier quick|thorough]");
             2
